@@ -118,15 +118,25 @@ def gen(prog, pid, found_err_ty=None):
     lits = []
     proof = []
     pair_claims = []
+    overlaps = {}        # variant ident -> idents of variants it shares an input with (only in programs tagged 'overlap')
     for i, v in enumerate(normal):
         for w in normal[i + 1:]:
             civ, ciw = oracle.is_ci(prog, v), oracle.is_ci(prog, w)
+            clash = False
+            for p in oracle.spellings(prog, v):
+                for q in oracle.spellings(prog, w):
+                    if witness(p, q, civ or ciw) is None:
+                        clash = True
+            if clash:
+                if 'overlap' not in prog.tags:
+                    raise Overlap('%s: spellings of %s and %s overlap' % (prog.name, v.ident, w.ident))
+                overlaps.setdefault(v.ident, []).append(w.ident)
+                overlaps.setdefault(w.ident, []).append(v.ident)
+                continue
             for p in oracle.spellings(prog, v):
                 for q in oracle.spellings(prog, w):
                     folded = civ or ciw
                     wit = witness(p, q, folded)
-                    if wit is None:
-                        raise Overlap('%s: spellings %r (%s) and %r (%s) overlap' % (prog.name, p, v.ident, q, w.ident))
                     for l in (p, q):
                         if l not in lits:
                             lits.append(l)
@@ -144,7 +154,9 @@ def gen(prog, pid, found_err_ty=None):
     # order-free statement
     concl = []
     for v in normal:
-        concl.append('h_%s(s) ==> r is Ok && %s' % (v.ident, vspec.variant_pred(prog, v, 'r->Ok_0', dw=payload_dw(prog, v))))
+        # where two variants share an input (overlapping programs) the property does not say which one wins for that input
+        guard = ''.join(' && !h_%s(s)' % w for w in overlaps.get(v.ident, []))
+        concl.append('h_%s(s)%s ==> r is Ok && %s' % (v.ident, guard, vspec.variant_pred(prog, v, 'r->Ok_0', dw=payload_dw(prog, v))))
     if dv is not None:
         concl.append('!h_any(s) ==> r is Ok && %s' % vspec.variant_pred(prog, dv, 'r->Ok_0', field_preds=lambda i, f, b: '%s == cap_of(s@)' % b))
     else:
@@ -156,8 +168,9 @@ def gen(prog, pid, found_err_ty=None):
     lem.append('// @@FN vx_complete\nproof fn vx_complete%s(s: &str, r: ::core::result::Result<%s, %s>) %s\n    requires\n        %s,\n    ensures\n        %s,\n{\n    vx_disjoint(s);\n}\n// @@END vx_complete' % (
         g_decl, tp, err_ty, where, ',\n        '.join(t for _, t in clauses('r')), ',\n        '.join(concl)))
     # reachability: from_str and try_from are callable on any string (no precondition) and a declared spelling hits
-    if normal:
-        v0 = normal[0]
+    clean = [v for v in normal if v.ident not in overlaps]
+    if clean:
+        v0 = clean[0]
         sp0 = oracle.spellings(prog, v0)[0]
         lem.append('// @@FN vx_reach_parse\nfn vx_reach_parse%s() %s\n{\n    let r = %s::from_str(%s);\n    proof { vx_complete(%s, r); }\n    assert(h_%s(%s));\n    assert(r is Ok && r->Ok_0 is %s);\n    let t = %s::try_from(%s);\n}\n// @@END vx_reach_parse' % (
             g_decl, where, vspec.ty_path(prog), rs_str(sp0), rs_str(sp0), v0.ident, rs_str(sp0), v0.ident, vspec.ty_path(prog), rs_str(sp0)))
@@ -247,8 +260,11 @@ mod vx_proofs {
             // C18: the user's error function runs exactly once for a rejected input and never for an accepted one
             assert!(c1 - c0 == if r.is_err() && %(custom)s { 1 } else { 0 });
             assert!(r == expected(s));
+            let d0 = perr_calls();
             let t = En::try_from(s);
+            let d1 = perr_calls();
             assert!(t == r);
+            assert!(d1 - d0 == if t.is_err() && %(custom)s { 1 } else { 0 });
         }
     }
     // same obligation restricted to ASCII inputs (cheaper for CBMC: used first when a counterexample is wanted)
@@ -266,6 +282,11 @@ mod vx_proofs {
             let c1 = perr_calls();
             assert!(c1 - c0 == if r.is_err() && %(custom)s { 1 } else { 0 });
             assert!(r == expected(s));
+            let d0 = perr_calls();
+            let t = En::try_from(s);
+            let d1 = perr_calls();
+            assert!(t == r);
+            assert!(d1 - d0 == if t.is_err() && %(custom)s { 1 } else { 0 });
         }
     }
 %(extra)s
